@@ -86,8 +86,8 @@ pub fn universe(prop: &'static str, tier: Tier) -> Universe {
     u.node_names = s(&["n1"]);
     u.define_names = s(&["e1", "t1"]);
     u.names = classify_names(&["g", "j", "f", "i", "x", "zz", "h", "Not_Valid", "url=<https://e.x>", "e1", "e2", "t1", ""]);
-    u.max_nodes = tier.pick(4, 5);
-    u.max_pkgs = tier.pick(2, 3);
+    u.max_nodes = tier.pick(5, 5);
+    u.max_pkgs = 3;
     u.ops = [
         "Register", "Unregister", "Instantiate", "Alias", "Import", "SetArg", "UnsetArg", "Export", "Unexport", "DefineType",
         "SetName", "Remove",
@@ -152,8 +152,8 @@ pub fn run(args: &[String]) {
     }
     let tier = ctx.tier();
     let u = universe("C06", tier);
-    let depth = tier.pick(3, 4);
-    let (stats, found) = bfs(&u, &seeds(), depth, None, tier.pick(400_000, 6_000_000), None);
+    let depth = tier.pick(4, 5);
+    let (stats, found) = bfs(&u, &seeds(), depth, None, tier.pick(2_000_000, 30_000_000), None);
     for f in found {
         let mut case = f.case;
         case["tier"] = json!(tier.as_str());
